@@ -29,6 +29,8 @@ RULE = ("cases = (penalty, hyper-parameters, unit, x, step); x drawn from {0, +-
 # (log-sum: the library locates the jump of its prox by a bisection stopped at a bracket of 1e-8, its documented accuracy;
 #  next to the jump the objective of its answer is then within ~1e-8 |x| of the minimum, not within 1e-9)
 SLACK = {"rel_objective": 1e-9, "rel_objective_logsum": 1e-7}
+DEATH_IS_VIOLATION = True          # a prox that does not return is a violation of "finite for every finite input"
+SHARD_TIMEOUT = {"quick": 600, "thorough": 2400}
 ASSUMPTIONS = ["reference prox objective and global minimum from vlib/refmath.py",
                "admissible step range per penalty as stated in LEVEL_NOTE"]
 FLOOR = {"quick": 4000, "thorough": 60000}
@@ -192,6 +194,38 @@ def _sep(emit, name, rng, base, first):
                 sample = dict(penalty=name, params=ps, x=x, step=s, j=j, prox=u, phi=fu, phi_min=fmin) \
                     if (first and k == 7) else None
                 _emit_eval(emit, cid, name + ".prox_1d", name, fu, fmin, u, x, s, ps, sample, True, scope)
+    if name in ("L1", "L1_plus_L2", "WeightedL1", "LogSumPenalty", "L0_5", "L2_3", "IndicatorBox", "PositiveConstraint"):
+        _huge_steps(emit, name, cp, ref, prm, ps, base, rng)
+
+
+def _huge_steps(emit, name, cp, ref, prm, ps, base, rng):
+    """steps far beyond anything a well-scaled problem produces (a prox-Newton solver hands 1/curvature to the prox, and
+    curvatures underflow on saturated losses): the prox must still return, with a finite value that is not worse than 0
+    and than x itself (necessary for a global minimiser; the brute-force reference is not used at these scales)."""
+    for k, (s, x) in enumerate([(1e8, 3.0), (1e16, 3.0), (1e16, -1e9), (1e20, 1e-3), (1e12, 5e7)]):
+        if not _admissible(name, prm, s):
+            continue
+        cid = "%s/huge%d" % (base, k)
+        emit(dict(id=cid, status="started", cell=name + ".prox_1d", coords=dict(penalty=name, params=ps, x=x, step=s)))
+        try:
+            u = float(cp.prox_1d(float(x), float(s), 0))
+        except Exception as e:
+            _emit_exc(emit, cid, name + ".prox_1d", name, e, x, s, ps)
+            continue
+        rec = dict(id=cid, cell=name + ".prox_1d", nontrivial=True, digest=digest(name, ps, x, s, "huge"))
+        ok = bool(np.isfinite(u))
+        if ok:
+            fu = float(ref.prox_obj_1d(u, x, s, 0))
+            f0, fx = float(ref.prox_obj_1d(0.0, x, s, 0)), float(ref.prox_obj_1d(x, x, s, 0))
+            ok = bool(R.leq(fu, min(f0, fx), rel=1e-7))
+        if ok:
+            rec["status"] = "held"
+        else:
+            rec.update(status="violated", viol=dict(mechanism="prox-not-global-minimiser", penalty=name, method="prox_1d",
+                                                    zero_input=False, huge_step=True,
+                                                    detail="x=%r step=%r -> %r" % (x, s, u)),
+                       obs=dict(x=x, step=s, params=ps, got=u))
+        emit(rec)
 
 
 def _grp(emit, name, rng, base, first):
